@@ -91,13 +91,15 @@ Inductive dobs :=
 | DIgnored | DRaise (x : exn) | DDefective.
 Record dcase := { dc_tbl : table; dc_env : env; dc_decl : decl; dc_obs : dobs }.
 
-Definition dmodel (c : dcase) : dobs :=
-  match class_result (tbl_match (dc_tbl c)) (dc_env c) [dc_decl c] with
+Definition dobs_of (r : res (list fres * list pystr)) : dobs :=
+  match r with
   | Ok ([r], req) => DField (fr_field r) (match fr_default r with Some PNone => None | x => x end)
                             (str_in (fr_name r) req)
   | Ok (_, _) => DIgnored
   | Raise x => if exn_eqb x defective then DDefective else DRaise x
   end.
+
+Definition dmodel (c : dcase) : dobs := dobs_of (class_result (tbl_match (dc_tbl c)) (dc_env c) [dc_decl c]).
 
 Definition dobs_eqb (a b : dobs) : bool :=
   match a, b with
@@ -109,3 +111,28 @@ Definition dobs_eqb (a b : dobs) : bool :=
 
 Definition dunmodelled (c : dcase) : bool := match dmodel c with DRaise Unmodelled => true | _ => false end.
 Definition dmismatch (c : dcase) : bool := negb (dunmodelled c) && negb (dobs_eqb (dmodel c) (dc_obs c)).
+
+(* ---------------------------------------------------------------- the same under `from __future__ import annotations` *)
+(* fc_len: length of the annotation text the compiler stored (ast.unparse of the annotation expression) *)
+Record fcase := { fc_len : Z; fc_case : dcase }.
+Definition fmodel (c : fcase) : dobs :=
+  let d := fc_case c in dobs_of (class_result_future (tbl_match (dc_tbl d)) (dc_env d) [(fc_len c, dc_decl d)]).
+Definition funmodelled (c : fcase) : bool := match fmodel c with DRaise Unmodelled => true | _ => false end.
+Definition fmismatch (c : fcase) : bool := negb (funmodelled c) && negb (dobs_eqb (fmodel c) (dc_obs (fc_case c))).
+
+(* ---------------------------------------------------------------- spec clause of C13_optional_marking on OBSERVED behaviour *)
+(* For `a: typing.Union[...]` inside the theorem's domain (typing keeps the Union as written, every member is None or
+   denotes a field) and without default, the implementation must have produced a field that is required iff it is
+   neither listed in _optional nor has a member denoting NoneField — whatever the model's own marks_optional computes. *)
+Definition opt_spec_applies (c : dcase) : bool :=
+  let d := dc_decl c in
+  d_annot d &&
+  match d_ty d with TUnion l => union_written l && forallb member_ok l | _ => false end &&
+  match d_eq d, d_kw d with None, None => true | _, _ => false end.
+
+Definition opt_spec_fails (c : dcase) : bool :=
+  opt_spec_applies c &&
+  match d_ty (dc_decl c), dc_obs c with
+  | TUnion l, DField _ _ req => negb (Bool.eqb req (negb (d_opt (dc_decl c) || existsb member_none l)))
+  | _, _ => true
+  end.
